@@ -990,8 +990,12 @@ class Node:
                     self._update_peer_counters(conn, app_answer=1)
                     self._receive_app_answer(conn, msg)
 
-        except Exception as e:
-            self.logger.error(f"{conn} failed to handle message: {e}",
+        except BaseException as e:
+            # also what is not an `Exception`: a request handler of a plain
+            # `Application` runs on the connection's reader thread, and one
+            # that ends with SystemExit or asyncio.CancelledError must not end
+            # that thread (the connection would stay open, unread)
+            self.logger.error(f"{conn} failed to handle message: {repr(e)}",
                               exc_info=True)
             if not msg.header.is_request:
                 return
